@@ -22,6 +22,7 @@ ASSUMPTIONS = ['package-relative names (gin/resource_reader.py) are exercised wi
                'finalization inside parse_config_files_and_bindings is modelled as locking only; the generator keeps such configs free of macros and hooks']
 
 BINDS = [('f', 'a'), ('f', 'b'), ('m.f', 'c'), ('g', 'a'), ('k', 'zz')]
+UNKNOWN = [('nope.q', 'a'), ('ghost', 'a')]       # configurables nobody registered: an error unless skip_unknown covers them
 
 
 def gen_file_items(rng, names_left, depth):
@@ -29,7 +30,7 @@ def gen_file_items(rng, names_left, depth):
   for _ in range(rng.randint(1, 5)):
     r = rng.random()
     if r < 0.6:
-      sel, p = rng.choice(BINDS)
+      sel, p = rng.choice(BINDS if rng.random() < 0.9 else UNKNOWN)
       items.append(['bind', rng.choice(['', '', 's1']), sel, p, str(rng.randint(0, 99))])
     elif r < 0.7:
       items.append(['import', rng.choice(c16.MODULES)])
@@ -128,7 +129,9 @@ class IncludeEngine(Engine):
         files[r][full] = render(v)
         variants[(r, full)] = v
     entry = logical[0]
-    sk = rng.choice([None, None, None, True, False])
+    # skip_unknown in every form, at every entry point: it must mean the same inside included files as at the top
+    sk = rng.choice([None, None, None, True, False, ['list', ['nope.q']], ['tuple', ['ghost']], ['list', ['ghost', 'nope.q']],
+                     ['set', ['nope.q']], ['list', ['other.name']]])
     r = rng.random()
     if r < 0.6:
       calls = [['file', entry, sk]]
@@ -183,6 +186,7 @@ class IncludeEngine(Engine):
     class Missing(Exception):
       pass
     expected_opened = []
+    unreadable = []
 
     def flatten(text, depth=0):
       nonlocal multi
@@ -195,7 +199,9 @@ class IncludeEngine(Engine):
                     if posixpath.join(p, name) in placed[r])
           multi = multi or cnt >= 2
           if hit is None:
-            raise Missing(name)
+            unreadable.append(name)
+            out.append(line)        # stays an include nobody can read: the oracle fails at this very point too
+            continue
           expected_opened.append([hit[0], hit[1]])
           out.append(flatten(placed[hit[0]][hit[1]], depth + 1))
         else:
@@ -209,17 +215,22 @@ class IncludeEngine(Engine):
           raise Missing(call[1])
         expected_opened.append([hit[0], hit[1]])
         flat = flatten(placed[hit[0]][hit[1]])
+        sk = call[2]
       elif call[0] == 'text':
         flat = flatten(call[1])
+        sk = call[2]
       else:
         parts = []
         for f in call[1]:
           hit = resolve(textm.subst(f, d), placed, prefixes, nreaders)
           if hit is None:
-            raise Missing(f)
+            unreadable.append(f)
+            parts.append("include '%s'" % f)
+            continue
           expected_opened.append([hit[0], hit[1]])
           parts.append(flatten(placed[hit[0]][hit[1]]))
         flat = '\n'.join(parts + list(call[2]))
+        sk = call[4]
       missing = None
     except Missing as e:
       missing, flat = str(e), None
@@ -230,15 +241,27 @@ class IncludeEngine(Engine):
       if not (isinstance(res, T) and res.tag == 'Err' and res.args[0] == 'OSError'):
         fails.append(('missing-file-not-reported', 'file %r cannot be read by anyone; outcome %r' % (missing, C.jsonable(res))))
     else:
-      if not (isinstance(res, T) and res.tag == 'Ok'):
-        fails.append(('readable-config-rejected', repr(C.jsonable(res))))
-      else:
-        fm = textm.TextMachine({'regs': case['regs'], 'consts': [], 'files': [{}], 'prefixes': [''],
-                                'modules': case['modules'], 'calls': [['text', flat, None]]})
-        try:
-          fobs, _ = fm.run()
-        finally:
-          fm.close()
+      if unreadable:
+        tags.append('missing')
+      # the oracle: a fresh gin given the flattened text with the same skip_unknown (an include nobody can read is still
+      # an include nobody can read there)
+      fm = textm.TextMachine({'regs': case['regs'], 'consts': [], 'files': [{}], 'prefixes': [''],
+                              'modules': case['modules'], 'calls': [['text', flat, sk]]})
+      try:
+        fobs, _ = fm.run()
+      finally:
+        fm.close()
+      fres = fobs[0]
+      outcome = lambda x: (x.tag, x.args[0] if x.tag == 'Err' else None) if isinstance(x, T) else ('?', None)
+      if outcome(res) != outcome(fres):
+        kind = ('missing-file-not-reported' if outcome(fres) == ('Err', 'OSError') else
+                'readable-config-rejected' if outcome(fres)[0] == 'Ok' else 'include-changes-outcome')
+        fails.append((kind, 'outcome %r; a fresh gin parsing the flattened text %r with skip_unknown=%r: %r (names nobody can '
+                      'read: %r)' % (C.jsonable(res), flat, sk, C.jsonable(fres), unreadable)))
+      elif len(case['calls']) == 1 and C.jsonable(fobs[1]) != C.jsonable(obs[len(case['calls'])]):
+        fails.append(('include-not-in-place', 'store after parsing %r; store after parsing the flattened text %r: %r' %
+                      (C.jsonable(obs[len(case['calls'])]), C.jsonable(fobs[1]), flat)))
+      elif isinstance(res, T) and res.tag == 'Ok':
         if C.jsonable(fobs[1]) != C.jsonable(obs[len(case['calls'])]):
           fails.append(('include-not-in-place', 'store after parsing %r; store after parsing the flattened text %r: %r' %
                         (C.jsonable(obs[len(case['calls'])]), C.jsonable(fobs[1]), flat)))
@@ -256,7 +279,7 @@ class IncludeEngine(Engine):
                       (C.jsonable(obs[0]), C.jsonable(obs[1]))))
     if not stable:
       fails.append(('parse-left-state-dirty', ''))
-    return {'obs': obs, 'fails': fails[:3], 'nontrivial': multi or missing is not None, 'tags': tags}
+    return {'obs': obs, 'fails': fails[:3], 'nontrivial': multi or bool(unreadable) or missing is not None, 'tags': tags}
 
 
 class PackageNameEngine(Engine):
